@@ -57,6 +57,12 @@ def _task(args):
         items = opts["items"]
         def gen():
             yield from items[part::opts["nparts"]]
+    elif kind == "gen":
+        g = _resolve(opts["gen"])
+        def gen():
+            for i, x in enumerate(g(*opts.get("gen_args", ()))):
+                if i % opts["nparts"] == part:
+                    yield x
     else:
         raise ValueError(kind)
     state: dict = {}
@@ -123,10 +129,15 @@ def run(check_spec: str, kind: str, k: int, cfgs, function: str, contract: str, 
         parts = range(nparts)
         universe = opts.get("universe", f"{len(opts['items'])} listed cases")
         bound = f"n={len(opts['items'])}"
+    elif kind == "gen":
+        nparts = opts.setdefault("nparts", workers)
+        parts = range(nparts)
+        universe = opts.get("universe", f"cases generated by {opts['gen']}{opts.get('gen_args', ())}")
+        bound = opts.get("bound", str(opts.get("gen_args", "")))
     tasks = [(check_spec, kind, p, k, list(cfgs), timeout_s, opts) for p in parts]
     b = Bounded(function=function, contract=contract, universe=universe + f" x configs {list(cfgs)}", bound=bound, rule=rule)
     sigs: set = set()
-    exhaustive = kind in ("lines", "inline", "list")
+    exhaustive = kind in ("lines", "inline", "list", "gen") and not opts.get("sampled")
     if workers == 1:
         outs = map(_task, tasks)
     else:
